@@ -17,6 +17,7 @@ import (
 
 	"github.com/gofiber/utils/v2"
 	"github.com/google/uuid"
+	"github.com/valyala/fasthttp"
 )
 
 // routeParser holds the path segments and param names
@@ -150,17 +151,24 @@ func RoutePatternMatch(path, pattern string, cfg ...Config) bool {
 
 	patternPretty := []byte(pattern)
 
+	// Normalise the path the way the request context does for dispatching:
+	// decode it if configured, then fold case and trailing slashes for detection only
+	if config.UnescapePath {
+		path = string(fasthttp.AppendUnquotedArg(nil, []byte(path)))
+	}
+	detectionPath := path
+
 	// Case-sensitive routing, all to lowercase
 	if !config.CaseSensitive {
 		patternPretty = utils.ToLowerBytes(patternPretty)
-		path = utils.ToLower(path)
+		detectionPath = utils.ToLower(detectionPath)
 	}
 	// Strict routing, remove trailing slashes
 	if !config.StrictRouting && len(patternPretty) > 1 {
 		patternPretty = utils.TrimRight(patternPretty, '/')
 	}
-	if !config.StrictRouting && len(path) > 1 {
-		path = utils.TrimRight(path, '/')
+	if !config.StrictRouting && len(detectionPath) > 1 {
+		detectionPath = utils.TrimRight(detectionPath, '/')
 	}
 
 	parser, _ := routerParserPool.Get().(*routeParser) //nolint:errcheck // only contains routeParser
@@ -168,7 +176,7 @@ func RoutePatternMatch(path, pattern string, cfg ...Config) bool {
 	parser.parseRoute(string(patternPretty))
 	defer routerParserPool.Put(parser)
 
-	if string(patternPretty) == "/" && path == "/" {
+	if string(patternPretty) == "/" && detectionPath == "/" {
 		return true
 		// '*' wildcard matches any path
 	} else if string(patternPretty) == "/*" {
@@ -177,12 +185,12 @@ func RoutePatternMatch(path, pattern string, cfg ...Config) bool {
 
 	// Does this route have parameters
 	if len(parser.params) > 0 {
-		return parser.getMatch(path, path, &ctxParams, false)
+		return parser.getMatch(detectionPath, path, &ctxParams, false)
 	}
 	// Check for a simple match
 	patternPretty = RemoveEscapeCharBytes(patternPretty)
 
-	return string(patternPretty) == path
+	return string(patternPretty) == detectionPath
 }
 
 func (parser *routeParser) reset() {
